@@ -74,7 +74,7 @@ _last = {'key': None, 'nt': False, 'classes': []}
 def config(tier):
     if tier == 'quick':
         return dict(shards=8, examples=1500, numba_threads=1, shrink_calls=200, soft_s=100)
-    return dict(shards=16, examples=6500, numba_threads=1, shrink_calls=500, soft_s=780)
+    return dict(shards=16, examples=4500, numba_threads=1, shrink_calls=500, soft_s=720)
 
 
 def extra_evidence():
